@@ -1289,3 +1289,114 @@ def gen_weak_cache():
     ok, log = compile_gen('WeakCache.v')
     return ('weakcache: decorator structure (lru_cache keyed on weakref.ref(self) + arguments, call on the dereferenced object, pass-through wrapper, '
             f'default maxsize {maxsize}) and the list of {len(uses)} cached methods, regenerated', ok, 'ok' if ok else log[-600:]), uses
+
+
+# ---------------------------------------------------------------- unit: bond wrap of Orientations._fractional_directions (C18)
+def bond_wrap_unit():
+    from fractions import Fraction
+    tree = _parse('orientations.py')
+    f = _find_func(tree, 'Orientations', '_fractional_directions')
+    body = [s for s in f.body if not (isinstance(s, ast.Expr) and isinstance(s.value, ast.Constant))]
+    src = [ast.unparse(s) for s in body]
+    want_head = ['frac_coord_cent = self._trajectory_cent.positions', 'frac_coord_sat = self._trajectory_sat.positions',
+                 'combinations = self._central_satellite_matrix(distance, frac_coord_cent)', 'sat = frac_coord_sat[:, combinations[:, 1], :]',
+                 'cent = frac_coord_cent[:, combinations[:, 0], :]', 'direction = sat - cent']
+    if src[:6] != want_head or src[-1] != 'return direction':
+        raise Unsupported('_fractional_directions head/tail')
+    steps = []
+    for s in body[6:-1]:
+        v = s.value if isinstance(s, ast.Assign) and ast.unparse(s.targets[0]) == 'direction' else None
+        if not (isinstance(v, ast.Call) and ast.unparse(v.func) == 'np.where' and len(v.args) == 3 and ast.unparse(v.args[2]) == 'direction'
+                and isinstance(v.args[0], ast.Compare) and ast.unparse(v.args[0].left) == 'direction' and len(v.args[0].ops) == 1
+                and isinstance(v.args[1], ast.BinOp) and ast.unparse(v.args[1].left) == 'direction' and isinstance(v.args[1].op, (ast.Add, ast.Sub))):
+            raise Unsupported('wrap step: ' + ast.unparse(s))
+        thr = Fraction(repr(ast.literal_eval(v.args[0].comparators[0])))
+        shift = Fraction(repr(ast.literal_eval(v.args[1].right)))
+        if shift.denominator != 1:
+            raise Unsupported('shift ' + str(shift))
+        op = {ast.Gt: '>?', ast.GtE: '>=?', ast.Lt: '<?', ast.LtE: '<=?'}.get(type(v.args[0].ops[0]))
+        if op is None:
+            raise Unsupported('wrap comparison')
+        # x/D op p/q  <=>  q*x op p*D   (D > 0, q > 0)
+        steps.append((f'({thr.denominator} * x {op} ({thr.numerator}) * D)', '+' if isinstance(v.args[1].op, ast.Add) else '-', shift.numerator))
+    if not steps:
+        raise Unsupported('no wrap steps')
+    return steps
+
+
+def gen_bond_wrap():
+    os.makedirs(GEN, exist_ok=True)
+    try:
+        steps = bond_wrap_unit()
+    except Unsupported as e:
+        return ('bondwrap', False, f'translator: unsupported {e}')
+    expr = 'd'
+    lets = []
+    for k, (cond, sign, n) in enumerate(steps):
+        lets.append(f'  let d{k + 1} := (fun x => if {cond} then x {sign} {n} * D else x) {"d" if k == 0 else "d%d" % k} in')
+        expr = f'd{k + 1}'
+    lines = ['(* GENERATED from /repo/src/gemdat/orientations.py (Orientations._fractional_directions) on every run -- do not edit *)',
+             'From GV Require Import Base.Prelude Model.Geom Model.C18.',
+             'Definition gen_bw (D d : Z) : Z :=', *lets, f'  {expr}.',
+             'Theorem gen_bw_is_model : forall D d, 0 < D -> gen_bw D d = bw D d.',
+             'Proof. intros D d HD. unfold gen_bw, bw. cbv beta.',
+             '  repeat match goal with |- context [if ?c then _ else _] => destruct c eqn:? end; lia. Qed.']
+    open(os.path.join(GEN, 'BondWrap.v'), 'w').write('\n'.join(lines) + '\n')
+    ok, log = compile_gen('BondWrap.v')
+    return ('bondwrap: the component-wise wrap of centre->satellite differences (thresholds, order and shifts of the np.where steps) regenerated and proved '
+            'equal to Model.C18.bw; pairing/difference statements checked', ok, 'ok' if ok else log[-600:])
+
+
+# ---------------------------------------------------------------- unit: automatic site radius (C02)
+def site_radius_unit():
+    tree = _parse('transitions.py')
+    f = _find_func(tree, None, '_compute_site_radius')
+    body = [s for s in f.body if not (isinstance(s, ast.Expr) and isinstance(s.value, ast.Constant))]
+    src = [ast.unparse(s) for s in body]
+    if src[0] != 'lattice = trajectory.get_lattice()' or src[2] != 'site_coords = sites.frac_coords' \
+            or src[3] != 'pdist = lattice.get_all_distances(site_coords, site_coords)' \
+            or src[4] != 'min_dist = np.min(pdist[np.triu_indices_from(pdist, k=1)])' or src[-1] != 'return site_radius' or len(body) != 7:
+        raise Unsupported('_compute_site_radius statements')
+    fm = _Formula({}, {'vibration_amplitude': 'vib', 'min_dist': 'dmin'})
+    if not (isinstance(body[1], ast.Assign) and ast.unparse(body[1].targets[0]) == 'site_radius'):
+        raise Unsupported('initial radius')
+    r0 = fm.ev(body[1].value)
+    fm.names['site_radius'] = r0
+    br = body[5]
+    if not (isinstance(br, ast.If) and not br.orelse and isinstance(br.test, ast.Compare) and len(br.test.ops) == 1 and isinstance(br.test.ops[0], ast.Lt)):
+        raise Unsupported('overlap test')
+    lhs, rhs = fm.ev(br.test.left), fm.ev(br.test.comparators[0])
+    inner = [s for s in br.body]
+    if not (isinstance(inner[0], ast.Assign) and ast.unparse(inner[0].targets[0]) == 'site_radius' and len(inner) == 2):
+        raise Unsupported('shrunk radius')
+    r1 = fm.ev(inner[0].value)
+    rej = inner[1]
+    fm.names['site_radius'] = r1
+    if not (isinstance(rej, ast.If) and not rej.orelse and isinstance(rej.test, ast.Compare) and isinstance(rej.test.ops[0], ast.Lt)
+            and isinstance(rej.body[-1], ast.Raise) and 'ValueError' in ast.unparse(rej.body[-1])):
+        raise Unsupported('too-close rejection')
+    rl, rr = fm.ev(rej.test.left), fm.ev(rej.test.comparators[0])
+    return r0, (lhs, rhs), r1, (rl, rr)
+
+
+def gen_site_radius():
+    os.makedirs(GEN, exist_ok=True)
+    try:
+        r0, (lhs, rhs), r1, (rl, rr) = site_radius_unit()
+    except Unsupported as e:
+        return ('siteradius', False, f'translator: unsupported {e}')
+    lines = ['(* GENERATED from /repo/src/gemdat/transitions.py (_compute_site_radius) on every run -- do not edit *)',
+             'From Coq Require Import Reals Lra.', 'Open Scope R_scope.',
+             '(* vib = vibration amplitude, dmin = smallest periodic distance between two sites (both in Angstrom) *)',
+             f'Definition gen_site_radius (vib dmin : R) : R := if Rlt_dec {lhs} {rhs} then {r1} else {r0}.',
+             f'Definition gen_rejects (vib dmin : R) : Prop := {lhs} < {rhs} /\\ {rl} < {rr}.',
+             '(* the automatic radius never lets two site spheres overlap: twice the radius is at most the smallest site separation,',
+             '   which is the hypothesis (4 r^2 <= d^2 for every pair) of C02 auto_radius_adm_unique / spheres_disjoint_unique *)',
+             'Theorem gen_site_radius_disjoint : forall vib dmin, 2 * gen_site_radius vib dmin <= dmin.',
+             'Proof. intros. unfold gen_site_radius. destruct (Rlt_dec _ _); lra. Qed.',
+             'Theorem gen_site_radius_accepted_lower_bound : forall vib dmin, ~ gen_rejects vib dmin -> 0 <= vib -> dmin < 2 * (2 * vib) -> 1 / 4 <= gen_site_radius vib dmin.',
+             'Proof. intros vib dmin H Hv Hd. unfold gen_site_radius, gen_rejects in *. destruct (Rlt_dec _ _); lra. Qed.']
+    open(os.path.join(GEN, 'SiteRadius.v'), 'w').write('\n'.join(lines) + '\n')
+    ok, log = compile_gen('SiteRadius.v')
+    return ('siteradius: _compute_site_radius (2 x vibration amplitude, shrunk to half the smallest site distance minus 0.005 when spheres would overlap, '
+            'rejection below 0.25 A) regenerated; proved: twice the radius never exceeds the smallest site distance', ok, 'ok' if ok else log[-600:])
